@@ -34,6 +34,10 @@ FRAGMENTS = ['{', '}', '[', ']', '$', '$$', '\\[', '\\]', '\\(', '\\)', '&', '\\
              # long repetitions: counters, label generators, rotating collections and nesting stacks must not run out
              '\\begin{enumerate}\\begin{enumerate}' + '\\item x ' * 30, '\\begin{enumerate}' * 7 + '\\item a',
              '\\begin{itemize}' + '\\item ' * 60, '$x$ ' * 15, '\\[a\\] ' * 10, '\\footnote{a}' * 12, '{' * 40 + 'x' + '}' * 40,
+             # keys given without a value
+             '\\newglossaryentry{x}{name=a, description}', '\\newglossaryentry{x}{description,name={a}}\\gls{x}',
+             '\\gls@defglossaryentry{x}{name,text,plural,first,description}\\gls{x} \\Glspl{x} \\glsdesc{x} \\GLS{x}',
+             '\\longnewglossaryentry{x}{name}{}', '\\newacronym[description]{x}{}{}\\acrshort{x}',
              '\\begin{itemize}' * 12, '\\item[a] ' * 30, '\\foreignlanguage{german}{' * 8, '\\gls{x} ' * 8]
 
 
